@@ -21,22 +21,24 @@ import (
 	"os"
 	"os/exec"
 	"sort"
+	"strconv"
 	"strings"
 	"sync"
 	"time"
 
 	rwl "github.com/SKAARHOJ/rawpanel-lib"
+	rwp "github.com/SKAARHOJ/rawpanel-lib/ibeam_rawpanel"
 	log "github.com/s00500/env_logger"
 	"github.com/sirupsen/logrus"
-	"io"
-	rwp "github.com/SKAARHOJ/rawpanel-lib/ibeam_rawpanel"
 	"google.golang.org/protobuf/proto"
 	"google.golang.org/protobuf/reflect/protoreflect"
+	"io"
 )
 
 func init() {
 	props["C06"] = genC06
 	props["C06child"] = childC06
+	props["C06cold"] = childC06cold
 	replays["C06"] = replayC06
 	// the library logs warnings on STDOUT through env_logger; they would corrupt the case stream
 	l := logrus.New()
@@ -296,6 +298,192 @@ func runBatchInProcess(cases []c06case) {
 		}
 		emit(L(Sym("c06"), Sym(c.kind), in, L(Sym(seq[i].status), seq[i].n, seq[i].nils, conc[i], Sym("d"+seq[i].digest))))
 	}
+}
+
+// ---------------- cold start ----------------
+// (seed C06-6: a lazily built package-level table with a broken double-checked lock is only unsafe
+// while the FIRST calls a process ever makes into a converter overlap; after any completed call the
+// process is race-free for good, so a check that computes its sequential reference first can never
+// see it.)  runCold starts nchild fresh processes; in each, the very first calls into the library
+// are made by 8 goroutines released together with a per-child stagger of 0..60 us between them; the
+// sequential reference is computed only afterwards.  A case's kind gets the suffix "-cold".
+func runCold(cases []c06case, nchild int) {
+	if len(cases) == 0 {
+		return
+	}
+	var in bytes.Buffer
+	for _, c := range cases {
+		in.WriteString(strings.TrimSuffix(c.kind, "-cold"))
+		for _, b := range c.input {
+			in.WriteString(" " + hex.EncodeToString(b) + ".")
+		}
+		in.WriteString("\n")
+	}
+	agree := make([]bool, len(cases))
+	for i := range agree {
+		agree[i] = true
+	}
+	var seq []string // "status n nils digest" of the sequential reference, from the last child that lived
+	crashed := 0
+	for n := 0; n < nchild; n++ {
+		cmd := exec.Command("/bin/sh", "-c", "ulimit -v 6000000; exec \"$0\" C06cold", os.Args[0])
+		cmd.Env = append(os.Environ(), fmt.Sprintf("C06_STAGGER_NS=%d", (n%13)*5000), fmt.Sprintf("GOMAXPROCS=%d", []int{16, 2, 4, 8, 3}[n%5]))
+		cmd.Stdin = bytes.NewReader(in.Bytes())
+		var outb bytes.Buffer
+		cmd.Stdout = &outb
+		if err := cmd.Run(); err != nil {
+			crashed++
+			continue
+		}
+		var lines []string
+		for _, l := range strings.Split(outb.String(), "\n") {
+			if strings.HasPrefix(l, "COLD ") {
+				lines = append(lines, l[5:])
+			}
+		}
+		if len(lines) != len(cases) {
+			crashed++
+			continue
+		}
+		seq = nil
+		for i, l := range lines {
+			f := strings.SplitN(l, " ", 2)
+			if f[0] != "1" {
+				agree[i] = false
+			}
+			seq = append(seq, f[1])
+		}
+	}
+	for i, c := range cases {
+		var inx []Sx
+		for _, b := range c.input {
+			inx = append(inx, Sx(b))
+		}
+		kind := strings.TrimSuffix(c.kind, "-cold") + "-cold"
+		c06hist[kind]++
+		if crashed > 0 && i == 0 {
+			c06hist[kind+":crash"]++
+			emit(L(Sym("c06"), Sym(kind), inx, L(Sym("crash"), 0, 0, true, Sym("d"))))
+			continue
+		}
+		if seq == nil {
+			emit(L(Sym("c06"), Sym(kind), inx, L(Sym("crash"), 0, 0, true, Sym("d"))))
+			continue
+		}
+		var st, dg string
+		var cnt, nils int
+		fmt.Sscanf(seq[i], "%s %d %d %s", &st, &cnt, &nils, &dg)
+		emit(L(Sym("c06"), Sym(kind), inx, L(Sym(st), cnt, nils, agree[i], Sym("d"+dg))))
+	}
+}
+
+// child of runCold: the concurrent calls come FIRST, the sequential reference afterwards
+func childC06cold(tier string, rng *Rng) {
+	sc := bufio.NewScanner(os.Stdin)
+	sc.Buffer(make([]byte, 1<<20), 1<<28)
+	var cases []c06case
+	for sc.Scan() {
+		f := strings.Fields(sc.Text())
+		if len(f) == 0 {
+			continue
+		}
+		c := c06case{kind: f[0]}
+		for _, h := range f[1:] {
+			b, _ := hex.DecodeString(strings.TrimSuffix(h, "."))
+			c.input = append(c.input, b)
+		}
+		cases = append(cases, c)
+	}
+	stagger, _ := strconv.Atoi(os.Getenv("C06_STAGGER_NS"))
+	const G = 8
+	res := make([][]c06res, G)
+	var wg sync.WaitGroup
+	start := make(chan struct{})
+	for g := 0; g < G; g++ {
+		wg.Add(1)
+		go func(g int) {
+			defer wg.Done()
+			<-start
+			t0 := time.Now()
+			for time.Since(t0) < time.Duration(g*stagger) { // busy wait: sub-scheduler-tick precision
+			}
+			res[g] = make([]c06res, len(cases))
+			for i, c := range cases {
+				res[g][i] = runKind(c.kind, c.input)
+			}
+		}(g)
+	}
+	close(start)
+	wg.Wait()
+	for i, c := range cases {
+		ref := runKind(c.kind, c.input)
+		same := 1
+		for g := 0; g < G; g++ {
+			if res[g][i] != ref {
+				same = 0
+			}
+		}
+		d := ref.digest
+		if d == "" {
+			d = "-"
+		}
+		fmt.Printf("COLD %d %s %d %d %s\n", same, ref.status, ref.n, ref.nils, d)
+	}
+}
+
+// every keyword of both ASCII grammars with a plausible argument, dense messages for both encoders:
+// whatever table a converter builds on first use is touched by the first overlapping calls
+func coldCases(rng *Rng) []c06case {
+	var inl, outl [][]byte
+	arg := func(kw string) string {
+		switch {
+		case strings.HasSuffix(kw, "#"):
+			return kw + "5=1"
+		case strings.HasSuffix(kw, "="):
+			return kw + "1"
+		case kw == "Mem" || kw == "Shift" || kw == "State":
+			return kw + "A=3"
+		}
+		return kw
+	}
+	for _, kw := range inKeywords {
+		inl = append(inl, []byte(arg(kw)))
+	}
+	inl = append(inl, []byte("HWCt#5=12|1|2|Title|1|L1|L2"), []byte("HWCg#5=0/0,8x1:qg=="), []byte("HWCc#5=133"), []byte("Flag#3=1"), []byte("{\"HWCIDs\":[1],\"HWCMode\":{\"State\":4}}"))
+	for _, kw := range outKeywords {
+		outl = append(outl, []byte(arg(kw)))
+	}
+	outl = append(outl, []byte("HWC#5=Down"), []byte("HWC#5.4=Up"), []byte("HWC#5=Press"), []byte("HWC#5=Enc:-2"), []byte("HWC#5=Abs:7"), []byte("HWC#5=Speed:-3"), []byte("HWC#5=Raw:9"),
+		[]byte("map=5:6"), []byte("_support=ASCII,Binary,System"), []byte("SysStat=CPUUsage:5:CPUTemp:41.5:"), []byte("Flag#3=1"))
+	cases := []c06case{{"decin", inl}, {"reader", inl}, {"decout", outl}}
+	var wi, wo [][]byte
+	for k := 0; k < 3; k++ {
+		mi := &rwp.InboundMessage{}
+		randMsg(rng, mi.ProtoReflect(), 4, 100)
+		if b, err := proto.Marshal(mi); err == nil {
+			wi = append(wi, b)
+		}
+		mo := &rwp.OutboundMessage{}
+		randMsg(rng, mo.ProtoReflect(), 4, 100)
+		if b, err := proto.Marshal(mo); err == nil {
+			wo = append(wo, b)
+		}
+	}
+	// registers of every kind, every flow word, every command flag: one message each way
+	wi = append(wi, mustWire(&rwp.InboundMessage{FlowMessage: 1, Command: &rwp.Command{ActivatePanel: true, SendPanelInfo: true, Reboot: true, ClearAll: true},
+		Registers: []*rwp.Register{{Reg: 0, Id: "A", Value: 1}, {Reg: 1, Id: "1", Value: 1}, {Reg: 2, Id: "A", Value: 2}, {Reg: 3, Id: "B", Value: 3}}}))
+	wo = append(wo, mustWire(&rwp.OutboundMessage{FlowMessage: 1, Events: []*rwp.HWCEvent{{HWCID: 1, Binary: &rwp.BinaryEvent{Pressed: true, Edge: 4}}, {HWCID: 2, Pulsed: &rwp.PulsedEvent{Value: -1}}},
+		Registers: []*rwp.Register{{Reg: 0, Id: "A", Value: 1}, {Reg: 1, Id: "1", Value: 1}, {Reg: 2, Id: "A", Value: 2}, {Reg: 3, Id: "B", Value: 3}}}))
+	cases = append(cases, c06case{"encin", wi}, c06case{"encout", wo})
+	return cases
+}
+
+func mustWire(m proto.Message) []byte {
+	b, err := proto.Marshal(m)
+	if err != nil {
+		panic(err)
+	}
+	return b
 }
 
 // ---------------- generators ----------------
@@ -643,7 +831,13 @@ func genC06(tier string, rng *Rng) {
 		}
 	}
 	flush()
-	meta(map[string]interface{}{"property": "C06", "kind_status_histogram": c06hist})
+	// 4. cold start: the first calls a process makes into the converters overlap (see runCold)
+	nchild := 40
+	if thorough {
+		nchild = 400
+	}
+	runCold(coldCases(rng), nchild)
+	meta(map[string]interface{}{"property": "C06", "kind_status_histogram": c06hist, "cold_start_children": nchild})
 }
 
 // enumSweep walks the message type tree; for each enum field found at some path it builds messages
@@ -826,6 +1020,10 @@ func replayC06(line string) {
 	var in [][]byte
 	for _, k := range n.Kids[2].Kids {
 		in = append(in, k.Bytes())
+	}
+	if strings.HasSuffix(n.Kids[1].Atom, "-cold") {
+		runCold([]c06case{{n.Kids[1].Atom, in}}, 60)
+		return
 	}
 	runBatch([]c06case{{n.Kids[1].Atom, in}})
 }
